@@ -1,7 +1,7 @@
 verus! {
 impl MessageBufReader {
     pub closed spec fn wf(&self) -> bool {
-        self.start <= self.end <= self.buf@.len() && 1 <= self.buf@.len() <= 0x1_0000_0000
+        self.start <= self.end <= self.buf@.len() && 1 <= self.buf@.len() <= 0x100_0000_0000
     }
     pub closed spec fn view(&self) -> Seq<u8> {
         self.buf@.subrange(self.start as int, self.end as int)
